@@ -167,11 +167,38 @@ pub fn words_to_bytes(ws: &[u32]) -> Vec<u8> {
     ws.iter().flat_map(|w| w.to_le_bytes()).collect()
 }
 
+thread_local! {
+    /// the generator word generated headers carry in the current case (see `set_ambient_generator_for`)
+    static AMBIENT_GENERATOR: std::cell::Cell<u32> = const { std::cell::Cell::new(0x000f_0000) };
+}
+pub fn ambient_generator() -> u32 {
+    AMBIENT_GENERATOR.with(|c| c.get())
+}
+/// Half of the cases keep rspirv's own generator word; the others carry one of the registered tool
+/// ids 0..=48 (Khronos, LunarG, ..., glslang 8, shaderc 13, DXC 14, rspirv 15, clspv 21, Slang 40 ...)
+/// with a zero, small or arbitrary tool version - derived from the case's input bytes, so a case is
+/// reproducible. Nothing any statement says depends on who produced a binary.
+pub fn set_ambient_generator_for(input: &[u8]) {
+    let h = crate::engine::hash64(input) ^ 0x9e37_79b9_7f4a_7c15;
+    let g = if h & 1 == 0 {
+        0x000f_0000
+    } else {
+        let tool = ((h >> 8) % 49) as u32;
+        let low = match (h >> 16) % 3 {
+            0 => 0,
+            1 => ((h >> 24) % 16) as u32,
+            _ => ((h >> 24) & 0xffff) as u32,
+        };
+        (tool << 16) | low
+    };
+    AMBIENT_GENERATOR.with(|c| c.set(g));
+}
+
 pub fn header_words(version: (u8, u8), bound: u32) -> Vec<u32> {
     vec![
         MAGIC,
         ((version.0 as u32) << 16) | ((version.1 as u32) << 8),
-        0x000f_0000,
+        ambient_generator(),
         bound,
         0,
     ]
@@ -261,6 +288,7 @@ pub struct Gen {
     /// edge mode: the first 61 result ids are handed out through an affine bijection, so that
     /// definition order and numeric order differ
     pub perm: Option<(u32, u32)>,
+    pub id_base: Option<u32>,
 }
 
 thread_local! {
@@ -270,6 +298,10 @@ thread_local! {
 /// Runs `f` with generators in edge-id mode: result ids (hence type ids and selectors) are
 /// occasionally 0 / 0x7fffffff / 0x80000000 / 0xffffffff. Kept out of the default mode so that
 /// stored choice streams keep their meaning.
+/// id values next to which a table, counter or threshold in an implementation plausibly changes
+/// behaviour: powers of two and round decimal numbers
+pub const ID_BOUNDARIES: [u32; 12] = [1 << 16, 1 << 17, 1 << 18, 1 << 20, 1 << 22, 1 << 24, 10_000, 100_000, 1_000_000, 10_000_000, 100_000_000, 1_000_000_000];
+
 pub fn with_edge_ids<T>(f: impl FnOnce() -> T) -> T {
     EDGE_IDS.with(|c| c.set(true));
     let r = f();
@@ -294,13 +326,14 @@ impl Gen {
             ext_imports: vec![],
             last_ext_number: None,
             perm: None,
+            id_base: None,
         }
     }
     /// fresh result id; in edge-id mode occasionally an extreme value not used before
     pub fn fresh_cs(&mut self, cs: &mut Cs) -> u32 {
         if self.edge_ids && cs.below(6) == 0 {
-            const EDGE: [u32; 4] = [0, u32::MAX, 0x8000_0000, 0x7fff_ffff];
-            let e = EDGE[cs.below(4)];
+            const EDGE: [u32; 12] = [0, u32::MAX, 0x8000_0000, 0x7fff_ffff, 65_535, 65_536, 65_537, 131_072, 999_999, 1_000_000, 1_000_001, 0x0100_0000];
+            let e = EDGE[cs.below(EDGE.len())];
             if !self.edge_used.contains(&e) {
                 self.edge_used.push(e);
                 return e;
@@ -308,9 +341,18 @@ impl Gen {
         }
         if self.edge_ids {
             let (a, c) = *self.perm.get_or_insert_with(|| if cs.bool() { (1, 0) } else { (1 + cs.below(60) as u32, cs.below(61) as u32) });
+            // one module in three hands out its ids from just below a power of two or of ten, so that
+            // they straddle it densely
+            let base = *self.id_base.get_or_insert_with(|| {
+                if cs.below(3) == 0 {
+                    ID_BOUNDARIES[cs.below(ID_BOUNDARIES.len())] - 1 - cs.below(48) as u32
+                } else {
+                    0
+                }
+            });
             let k = self.next_id - 1;
             self.next_id += 1;
-            return if k < 61 { 1 + (k * a + c) % 61 } else { k + 1 };
+            return base + if k < 61 { 1 + (k * a + c) % 61 } else { k + 1 };
         }
         self.fresh()
     }
